@@ -203,7 +203,7 @@ def rand_program_text(rnd, nstmt=None, files=(), strength=0.3):
 TOKENS = (sorted(pdp11_ref.MNEMONICS) + METANAMES + ["r0", "r1", "r5", "sp", "pc", "%3", "ac0", "ac5", "{", "}", ",", ":", "::", "=", "==", "#", "@",
           "%", "(", ")", "<", ">", "^", "\\", "\"", "'", "/", "+", "-", "*", "<<", ">>", "_", "&", "|", "!", "~", "^C", "^X", "^R", "^D", "^B", "^O", ".",
           "1$", "10$", "8", "9", "19", "0x", "0xFG", "177777", "200000", "1.", "65536.", "-1", "lab", "foo", "all", "\n", "\n", ";", "\t", " ", "@#", "-(", ")+",
-          "'a", "\"ab", "<1>", "^/", ". =", ".=", "\"str\"", "'s'", "/s/"])
+          "'a", "\"ab", "'€", "\"字я", "'\U0001f600", "<1>", "^/", ". =", ".=", "\"str\"", "'s'", "/s/"])
 CHARS = ["\0", "\t", "\r", "\n", "\x0c", "\x0b", "\x1c", "\x85", "\u2028", "\u2029", " ", "\"", "'", "/", "\\", ";", ":", "=", "{", "}", "(", ")", "<", ">", "^", "#", "@", "%", "$", ".", ",", "+", "-",
          "8", "9", "0", "a", "Z", "_", "é", "я", "€", "字", "\x7f", "​", "﻿", "~", "!", "|", "&", "*",
          "\u212a", "\u0130", "\u0131", "\u017f", "\ufb06", "\xdf", "\u0cee", "\u0661", "\xb2", "\u2167", "\uff21", "\uff11", "\u0301", "\U0001f600", "\U0001d7d8", "\u01c5"]
